@@ -606,7 +606,11 @@ Inductive pop :=
 | POp (x : op)                 (* a command of Model/Db.v, issued by this process's Eups *)
 | PDel (loc s fl : str)        (* somebody removes a cache file while the process lives *)
 | PUAssign (o : opts) (t n v : str)              (* Eups.assignTag(t, n, v, stack) with a user tag t *)
-| PUUnassign (o : opts) (t n : str) (v : option str).   (* Eups.unassignTag(t, n, v, stack) with a user tag t *)
+| PUUnassign (o : opts) (t n : str) (v : option str)    (* Eups.unassignTag(t, n, v, stack) with a user tag t *)
+| PUPlant (o : opts) (t n v : str).            (* the same assignment as PUAssign made with Database.assignTag(user:t, ...,
+                                                  writeableDB=None): the chain file goes into the user's tag directory
+                                                  whatever Eups.assignTag does (a repaired one, another eups version that
+                                                  shares the user's data directory), then the same write-through and save *)
 
 Definition delete_cache (w : world) (loc s fl : str) : world :=
   mkW (w_db w) (w_clock w) (w_stamps w) (gremove pkey_eqb (loc, s, fl) (w_pickles w)) (w_uc w).
@@ -741,12 +745,12 @@ Definition wt_uact (x : uact) (ps : pstack) : res (pstack * bool) :=
 
 (* database call ; [death] ; ensureInSync ; in-memory update ; save (assignTag always, unassignTag when
    the stack reported a change) *)
-Definition run_uact (vr : variant) (loc u fl : str) (w : world) (m : mem) (x : uact) (crash : option (nat * bool))
+Definition run_uact (pin_uloc : bool) (loc u fl : str) (w : world) (m : mem) (x : uact) (crash : option (nat * bool))
   : world * mem * outcome :=
   match crash with
   | Some (0, false) => (w, m, OCrashed)
   | _ =>
-    let w1 := do_udb (v_uloc vr) w u x in
+    let w1 := do_udb pin_uloc w u x in
     match crash with
     | Some (0, true) => (w1, m, OCrashed)
     | _ =>
@@ -766,13 +770,13 @@ Definition run_uact (vr : variant) (loc u fl : str) (w : world) (m : mem) (x : u
     end
   end.
 
-Definition run_uop (vr : variant) (loc u fl : str) (w : world) (m : mem) (o : opts) (plan : res (option uact))
+Definition run_uop (pin_uloc : bool) (loc u fl : str) (w : world) (m : mem) (o : opts) (plan : res (option uact))
   (crash : option (nat * bool)) : world * mem * outcome :=
   if negb (str_eqb (o_flavor o) fl) then (w, m, OErr Undefined) else
   match plan with
   | Err e => (w, m, OErr e)
   | Ok None => (w, m, OOk)
-  | Ok (Some x) => run_uact vr loc u fl w m x crash
+  | Ok (Some x) => run_uact pin_uloc loc u fl w m x crash
   end.
 
 Definition run_pop (vr : variant) (loc u fl : str) (w : world) (m : mem) (x : pop) (crash : option (nat * bool))
@@ -780,8 +784,9 @@ Definition run_pop (vr : variant) (loc u fl : str) (w : world) (m : mem) (x : po
   match x with
   | POp o => run_op vr loc u fl w m o crash
   | PDel l s f => (delete_cache w l s f, m, OOk)
-  | PUAssign o t n v => run_uop vr loc u fl w m o (uassign_plan w o t n v) crash
-  | PUUnassign o t n vo => run_uop vr loc u fl w m o (uunassign_plan w m o t n vo) crash
+  | PUAssign o t n v => run_uop (v_uloc vr) loc u fl w m o (uassign_plan w o t n v) crash
+  | PUUnassign o t n vo => run_uop (v_uloc vr) loc u fl w m o (uunassign_plan w m o t n vo) crash
+  | PUPlant o t n v => run_uop false loc u fl w m o (uassign_plan w o t n v) crash
   end.
 
 (* crash = (index of the operation, index of the group, before / after its database call) *)
